@@ -71,7 +71,8 @@ pub enum Act {
     Withdraw { t: usize, v: usize, amount: u128 },
     /// `attach`: native coins the caller attaches although a liquidation takes no payment (0 in cw20 deployments)
     Liquidate { who: String, v: usize, target: usize, limit: u128, attach: u128 },
-    PayFunding { who: String, v: usize },
+    /// `attach`: native coins the caller attaches although a settlement takes no payment (only where the check asks for it)
+    PayFunding { who: String, v: usize, attach: u128 },
     NextBlock { dt: u64 },
     SetOracle { v: usize, price: u128 },
     EngineAdmin { sender: String, msg: eng::ExecuteMsg },
@@ -609,13 +610,20 @@ impl Interp {
                     attach: 0,
                 }
             }
-            Op::PayFunding { who, v } => Act::PayFunding {
-                who: WHO[(*who as usize) % WHO.len()].to_string(),
-                v: self.v_of(*v),
-            },
+            Op::PayFunding { who, v } => {
+                let whos = WHO[(*who as usize) % WHO.len()].to_string();
+                // where the check asks for it, one settlement in three by a funded caller of a native deployment comes with stray coins
+                let attach = if self.w.cfg.native && self.w.stray_funding_coins && *who % 3 == 1 && self.w.balance(&whos) > 7 { 7 } else { 0 };
+                Act::PayFunding { who: whos, v: self.v_of(*v), attach }
+            }
             Op::NextBlock { dt } => {
                 let period = pre.v[0].cfg.funding_period;
-                let dtv = match dt % 12 {
+                let dtv = match dt % 16 {
+                    // between one minute and the 15-minute TWAP window
+                    12 => 120,
+                    13 => 300,
+                    14 => 600,
+                    15 => 450,
                     0 => 15,
                     1 => 1,
                     2 => 60,
@@ -898,7 +906,7 @@ impl Interp {
                             *base_asset_holding_cap = Some(u(cap_tab(b, my)))
                         }
                         _ => {
-                            let t: [u64; 8] = [3600, 60, 59, 604800, 604801, 900, 0, 86400];
+                            let t: [u64; 11] = [3600, 60, 59, 604800, 604801, 900, 0, 86400, 300, 120, 600];
                             *spot_price_twap_interval = Some(t[idx(*knob, t.len())])
                         }
                     }
@@ -1001,7 +1009,7 @@ impl Interp {
                     2 => lo + 1,
                     _ => lo.saturating_sub(1).max(1),
                 };
-                self.w.follow = Some(Act::Close { t, v, limit: 0 });
+                self.w.follow.push_back(Act::Close { t, v, limit: 0 });
                 self.whale_trade(pre, v, up, amt)
             }
             Op::Balance { v, t } => {
@@ -1132,6 +1140,65 @@ impl Interp {
                     msg,
                 }
             }
+            Op::Drain { v, t, knob } => {
+                // the oracle is moved so that the next settlement charges a holder about c x its margin (c from 1/2 to 5: the margin
+                // is half consumed, exactly consumed, consumed one unit over, several times over), the settlement follows at the
+                // funding time, and in three cases out of four the owner then trades on / withdraws from / closes the drained position (up to three operations)
+                let v = self.v_of(*v);
+                let t = pick_holder(pre, v, *t, true);
+                let p = match &pre.pos[v][t] {
+                    Some(p) if !p.size.is_zero() => p.clone(),
+                    _ => return Act::Skip,
+                };
+                let long = !p.size.is_negative();
+                let size = p.size.value.u128();
+                let margin = p.margin.u128().max(1);
+                let period = pre.v[v].cfg.funding_period.max(1) as u128;
+                let c = [500u128, 1000, 1001, 2000, 5000, 999, 1500][idx(*knob, 7)];
+                let f_target = mul_div_floor(margin, c, 1000);
+                // premium fraction needed: F * D / size; price gap = fraction * 86400 / period
+                let frac = mul_div_floor(f_target, d, size.max(1));
+                let gap = mul_div_floor(frac, 86400, period).max(1);
+                let spot = pre.v[v].spot;
+                let price = if long { spot.saturating_sub(gap).max(1) } else { spot.saturating_add(gap) };
+                let nf = pre.v[v].state.next_funding_time;
+                let dt = if nf > pre.time { nf - pre.time } else { 1 };
+                self.w.follow.push_back(Act::NextBlock { dt });
+                self.w.follow.push_back(Act::PayFunding { who: self.w.liquidator.clone(), v, attach: 0 });
+                let n_now = self.output_amount(v, p.direction.clone(), size).unwrap_or(0);
+                let mk_open = |it: &Interp, buy: bool, q: u128| Act::Open { t, v, buy, margin: q.max(1), lev: d, limit: 0, attach: if it.w.cfg.native { it.expected_pull(pre, t, v, buy, q.max(1), d) } else { 0 }, directed: true };
+                let k = *knob % 8;
+                if k == 1 || k == 5 || k == 7 {
+                    let a = mk_open(self, long, d / 100 + 1);
+                    self.w.follow.push_back(a)
+                }
+                if k == 2 || k == 5 || k == 6 {
+                    let a = mk_open(self, !long, n_now / 4 + 1);
+                    self.w.follow.push_back(a)
+                }
+                if k == 3 {
+                    self.w.follow.push_back(Act::Withdraw { t, v, amount: 1 })
+                }
+                if k >= 5 {
+                    self.w.follow.push_back(Act::Close { t, v, limit: 0 })
+                }
+                Act::SetOracle { v, price }
+            }
+            Op::Burst { v, who, n } => {
+                // a run of funding periods, each settled once: n x (a block one funding period later, PayFunding); the
+                // engine's per-market list of cumulative fractions and the vAMM's snapshot list grow by one entry each
+                let v = self.v_of(*v);
+                let period = pre.v[v].cfg.funding_period.max(1);
+                let n = 6 + (*n as usize % 5) * 7;
+                let whos = WHO[(*who as usize) % WHO.len()].to_string();
+                for k in 0..n {
+                    if k > 0 {
+                        self.w.follow.push_back(Act::NextBlock { dt: period });
+                    }
+                    self.w.follow.push_back(Act::PayFunding { who: whos.clone(), v, attach: 0 });
+                }
+                Act::NextBlock { dt: period }
+            }
             Op::Shutdown => Act::FundAdmin {
                 sender: self.w.owner.clone(),
                 msg: fund::ExecuteMsg::ShutdownVamms {},
@@ -1191,7 +1258,7 @@ impl Interp {
                 },
                 *attach,
             ),
-            Act::PayFunding { v, .. } => (eng::ExecuteMsg::PayFunding { vamm: vaddr(*v) }, 0),
+            Act::PayFunding { v, attach, .. } => (eng::ExecuteMsg::PayFunding { vamm: vaddr(*v) }, *attach),
             Act::EngineAdmin { msg, .. } => (msg.clone(), 0),
             _ => return None,
         })
@@ -1260,7 +1327,7 @@ pub fn act_json(act: &Act) -> Value {
         Act::Deposit { t, v, amount, attach } => json!({"deposit": {"t": t, "v": v, "amount": amount.to_string(), "attach": attach.to_string()}}),
         Act::Withdraw { t, v, amount } => json!({"withdraw": {"t": t, "v": v, "amount": amount.to_string()}}),
         Act::Liquidate { who, v, target, limit, attach } => json!({"liquidate": {"who": who, "v": v, "target": target, "limit": limit.to_string(), "attach": attach.to_string()}}),
-        Act::PayFunding { who, v } => json!({"pay_funding": {"who": who, "v": v}}),
+        Act::PayFunding { who, v, attach } => json!({"pay_funding": {"who": who, "v": v, "attach": attach.to_string()}}),
         Act::NextBlock { dt } => json!({"next_block": dt}),
         Act::SetOracle { v, price } => json!({"set_oracle": {"v": v, "price": price.to_string()}}),
         Act::EngineAdmin { sender, msg } => json!({"engine_admin": {"sender": sender, "msg": format!("{:?}", msg)}}),
@@ -1288,11 +1355,13 @@ pub fn run_history(case: &HistCase, mon: &mut dyn Monitor, ctx: &Ctx, out: &mut 
     let mut trace: Vec<Value> = vec![];
     let mut pre = observe(&it.w);
     it.w.fmodel.start(&pre);
+    let created = it.w.created_at;
+    it.w.rmodel.start(&pre, created.0, created.1);
     let mut ops_iter = case.ops.iter().enumerate();
     let mut cur_i = 0usize;
     loop {
         // a directed op may have queued the action that has to follow it immediately
-        let act = match it.w.follow.take() {
+        let act = match it.w.follow.pop_front() {
             Some(a) => {
                 out.count("op.follow_up");
                 a
@@ -1325,6 +1394,7 @@ pub fn run_history(case: &HistCase, mon: &mut dyn Monitor, ctx: &Ctx, out: &mut 
         let res = it.exec_act(&act);
         let post = observe(&it.w);
         it.w.fmodel.step(&act, &pre, &post, res.ok);
+        it.w.rmodel.step(&pre, &post);
         let effect = match act.subject() {
             Some((v, t)) => classify(&act, &pre.pos[v][t], &post.pos[v][t], res.ok),
             None => Effect::None,
